@@ -193,7 +193,9 @@ Definition bpos (b : fbuf) : nat := (boff b + bidx b)%nat.
 Definition bhead (b : fbuf) : row := nth (bidx b) (brows b) row0.
 Definition bkey (b : fbuf) : Z := rkey (bhead b).
 
-(* FrameBuffer.Fill, sort.go:102-119; d = length of the buffer's frame *)
+(* FrameBuffer.Fill, sort.go:102-119; d = length of the buffer's frame.  Fill panics
+   when Index != Len; every call site below calls it with Index = Len (a fresh buffer,
+   or right after Index++ reached Len), so that branch is not modelled. *)
 Definition fill (d : nat) (b : fbuf) : fbuf * status :=
   let '(l, st, s') := sread (brd b) d in
   match st with
@@ -443,6 +445,10 @@ Fixpoint drain_reduce (d : nat) (comb : Z -> Z -> Z) (r : rrd) (demands : list n
 Definition run_reduce (chunk : nat) (comb : Z -> Z -> Z) (rs : list script) (demands : list nat)
   : outcome :=
   mkO COk (drain_reduce chunk comb (new_reduce rs) demands) [] 0.
+
+(* the values of key k among rows (specification vocabulary of the reduce-merge) *)
+Definition kvals (k : Z) (all : list (Z * Z)) : list Z :=
+  map snd (filter (fun r => fst r =? k) all).
 
 (* ================= observables of a drained reader ================= *)
 
